@@ -86,6 +86,10 @@ def run(p, led, tier):
                 is_tool = True
             if is_tool:
                 sites.append((fi, n, recv))
+            elif c is None and fi.module.rel in FILES[:2]:
+                # an `.execute(` on a receiver whose class cannot be resolved, inside the engine / the LLM loop: the tool may
+                # travel inside a value object (`plan.callee.target.execute(…)`): counted as a site
+                sites.append((fi, n, recv))
             elif c is None:
                 unresolved.append((fi, n))
     led.extra["excluded_execute_methods"] = [f"{fi.qual}: {short(n)} — {why}" for fi, n, why in excluded]
